@@ -92,6 +92,11 @@ def main(tier_: str) -> int:
     with scratch() as d:
         ra = run_tlc('HttpRangeMC', 'HttpRangeMC.cfg', workdir=d, workers=1, timeout=600)
         tlc_must_pass(ra, 'HttpRangeMC (A)')
+        # the same invariants over unbounded integers (SMT): every header integer / length, resp. every whole-second part
+        from harness.core import run_apalache, apalache_must_not_refute
+        apa = run_apalache('HttpRangeApa', workdir=d)
+        apalache_must_not_refute(apa, 'HttpRangeApa')
+        out.coverage['apalache_unbounded'] = {k: v for k, v in apa.items() if k != 'tail'}
         table = ra.tagged('S')
         lines: list[dict[str, Any]] = []
         rng = random.Random(seed() * 13 + 13)
